@@ -2090,7 +2090,7 @@ func (c *Conn) bufferHandshakeRecord(
 	}
 
 	for out, epoch := c.fragmentBuffer.Pop(); out != nil; out, epoch = c.fragmentBuffer.Pop() {
-		if epoch == 0 && c.isHandshakeCompletedSuccessfully() {
+		if epoch == 0 && c.handshakeEstablished != nil && c.isHandshakeCompletedSuccessfully() {
 			// Once the handshake has completed nothing new can arrive in the
 			// clear: everything after it is protected. Caching such messages
 			// would let anyone grow the cache for as long as the session lives.
